@@ -605,7 +605,7 @@ func (t *Teamserver) DispatchEvent(pk packager.Package) {
 							for _, l := range t.Listeners {
 								if l.Name == ListenerName {
 									t.ListenersMtx.Unlock()
-									t.EventListenerErrorOnly(ListenerName, errors.New("listener already exists"))
+									t.EventListenerErrorOnly(pk.Head.User, ListenerName, errors.New("listener already exists"))
 									return
 								}
 							}
